@@ -44,8 +44,17 @@ def result_arm_regions(ctx, a):
     restart call (service actor)"""
     out = []
     for arm in build_result_arms(a):
-        Rerr = variant_region(a, "Result", "Err", within=arm.region | {arm.edge.dst})
-        Rok = variant_region(a, "Result", "Ok", within=arm.region | {arm.edge.dst})
+        # the match on the arm's own payload: the outermost test of a Result in the arm (code spliced into the arm - `if let Err(e) = sender.send(..).await` in a
+        # notifier - tests other Results further down)
+        W = arm.region | {arm.edge.dst}
+        E = [e for e in a.edges if e.src in W and e.label and e.label[0] == "variant" and path_ends(e.label[1] or "", "Result")]
+        outer = [e for e in E if not any(e.src in a.dominated_by_edge(e2) for e2 in E if e2.src != e.src)]
+        Rerr, Rok = set(), set()
+        for e in outer:
+            if e.label[2] == ("Err",):
+                Rerr |= a.dominated_by_edge(e) & W
+            elif e.label[2] == ("Ok",):
+                Rok |= a.dominated_by_edge(e) & W
         # Ok(variant) patterns switch on the payload too
         out.append((Rerr, Rok or (arm.region - Rerr), "build-result"))
     if not out:
@@ -172,7 +181,12 @@ def err_reaches_exit(ctx):
     # the `?` on the engine result comes after the shutdown
     tries = returns_err_via_try(ma, lambda o: origin_matches(o, lambda x: x[0] == "await" and x[3] is eng))
     if not tries:
-        ctx.bad("main/result-propagated", [site(ma, eng.into_bb)], "the result of the engine run is not propagated with `?`: a failed target would exit 0", props=["C07", "C10"])
+        # ... or handed back as it is: the engine's result is the value of the block (`let result = run(..).await; shutdown().await; result`, possibly inside a
+        # helper whose own result the block returns) - the shutdown-always check above already places the return after the shutdown
+        returned = False
+        if eng.poll_call_bb is not None and ma.term(eng.poll_call_bb).get("dest") is not None:
+            returned = 0 in ma.prov.flows_forward(ma.term(eng.poll_call_bb)["dest"]["local"])
+        ctx.check(returned, "main/result-propagated", [site(ma, eng.into_bb)], "the result of the engine run is neither propagated with `?` nor returned: a failed target would exit 0", props=["C07", "C10"])
     for (tb, ce, be) in tries:
         before = tb in (ma.reach_from(eng.ready_bb, avoid=(sh.into_bb,)) | {eng.ready_bb})
         ctx.check(tb in (ma.reach_from(sh.ready_bb) | {sh.ready_bb}) and not before, "main/result-after-shutdown", [site(ma, tb)],
@@ -243,6 +257,34 @@ def _reaches_all_returns_through(body, start, through, ok_only=False):
     yield True
 
 
+def termination_flags(a, arm, blks):
+    """bool locals that record `termination received`: every definition is `false` before the loop or `true` inside the termination arm"""
+    out = []
+    for l, loc in enumerate(a.locals):
+        if loc["ty"] != "bool" or not loc.get("name"):
+            continue
+        defs = a.prov.defs.get(l, ())
+        if not defs:
+            continue
+        good, set_in_arm = True, False
+        for kind, x, bb in defs:
+            v = const_val(x["rv"]["op"]) if kind == "assign" and x["rv"]["k"] == "use" else None
+            if v == "false" and bb not in blks:
+                continue
+            if v == "true" and (bb in arm.region or bb == arm.edge.dst):
+                set_in_arm = True
+                continue
+            good = False
+        if good and set_in_arm:
+            out.append(l)
+    return out
+
+
+def flag_true_edges(a, flags, blks):
+    """edges of the loop taken when a termination flag is true"""
+    return [e for e in a.edges if e.src in blks and e.label and e.label[0] == "bool" and e.label[1] is True and e.label[2] is not None and set(flags) & set(_locals_read(a, e.label[2]))]
+
+
 @rule("C10.ACTOR-EXITS", ["C10"], """every actor leaves its loop when told to terminate: directly, or (build in flight) by cancelling the build and leaving when its result arrives""", "K1", floor=3)
 def actor_exits(ctx):
     r = ctx.r
@@ -283,6 +325,21 @@ def actor_exits(ctx):
             stays = [e for e in back if e.src not in Gfalse and e.dst not in Gfalse]
             if stays:
                 ok = False
+        # the same, stated on the loop as a whole (the flag may be tested anywhere - e.g. once, at the top of the loop): between recording the termination
+        # (unless a build is in flight and was just told to stop) or learning the outcome of a build, and blocking in the select again, the actor passes a
+        # test of the flag whose true side leads out of the loop
+        polls = {x.into_bb for x in awaits(a) if x.callee and x.callee.endswith("poll_fn") and x.into_bb in blks}
+        flags = set(flag_locals) & set(termination_flags(a, arm, blks))
+        if not ok and polls and flags:
+            outside = {e.dst for e in exits}
+            tests = {e.src for e in flag_true_edges(a, flags, blks) if (a.reach_from(e.dst, avoid=tuple(polls)) | {e.dst}) & outside}
+            cancel_bbs = {c[0] for c in cancels}
+            def blocks_again(start, exempt):
+                avoid = tuple(tests | exempt)
+                return start not in avoid and bool(((a.reach_from(start, avoid=avoid) | {start}) - set(avoid)) & polls)
+            starts_arm = [bb for bb in arm.region for st in a.stmts(bb) if st["lhs"]["local"] in flags and not st["lhs"]["proj"]]
+            ok = bool(tests) and bool(starts_arm) and not any(blocks_again(sb, cancel_bbs) for sb in starts_arm) and \
+                not any(blocks_again(ba.edge.dst, set()) for ba in build_result_arms(a)) and bool(build_result_arms(a))
         # staying paths must be exactly those that have a build in flight (and cancelled it)
         ctx.check(bool(cancels) and bool(flag_locals) and ok, f"{lab}/terminates", [site(a, c[0]) for c in cancels] or [a.loc(arm.edge.dst)],
                   "on termination the actor neither leaves its loop nor (cancels the running build, records the termination and leaves when the build result arrives)")
@@ -326,6 +383,10 @@ def loop_only_left_on_termination(ctx):
                         good = False
                     if good and l[1] is True:
                         ok = True
+            if not ok:
+                # ... or further down a conjunction that starts with the flag (`if terminating && !build_ongoing { break }`)
+                tf = termination_flags(a, arm, blks)
+                ok = any(e.src in a.dominated_by_edge(fe) or e.src == fe.dst for fe in flag_true_edges(a, tf, blks))
             if not ok:
                 bad.append(e)
         ctx.need(n >= 1, f"exit of the actor loop in {lab}")
@@ -568,6 +629,19 @@ def signal_wired(ctx):
             for e in rel.edges:
                 if e.src in blks and e.label and e.label[0] == "bool" and e.label[2] is not None and set(flags) & _locals_read(rel, e.label[2]) and any(x.src == e.src or x.src in rel.reach_from(e.src) for x in exits):
                     good = True
+            # ... or turns the message into a value of a local enum (`EngineEvent::TerminationRequested`, built nowhere else) on which the loop is left
+            W = arm.region | {arm.edge.dst}
+            for (abb, ast) in rel.aggregates():
+                rv = ast["rv"]
+                if abb not in W or "adt" not in rv or rv["adt"] not in f.adts or not f.adts[rv["adt"]]["enum"] or rv["adt"].startswith("std::"):
+                    continue
+                nm, var = rv["adt"].split("::")[-1], rv["variant"]
+                if any(bb2 not in W for (bb2, _) in rel.aggregates(nm, var)):
+                    continue
+                Rv = variant_region(rel, nm, var)
+                if any(e.src in Rv or (e.label and e.label[0] == "variant" and e.label[2] == (var,) and path_ends(e.label[1] or "", nm)) for e in exits) or \
+                        any(rel.term(x)["k"] == "return" for x in Rv):
+                    good = True
         ctx.check(good, f"{short(rel.name)}/termination-arm", [rel.loc(arms[0].edge.dst)], "the relay does not leave its loop when the termination message arrives")
 
 
@@ -684,6 +758,15 @@ def actual_provenance(ctx):
                             ok, why3 = _some_dependency_actual(r, cv, ct["args"][pa[0][1] - 1], cv)
                         else:
                             ok, why3 = _some_dependency_actual(r, b, aop, cv, ct)
+                        if not ok:
+                            # the helper computes `actual` through further helpers (a small struct with one set per kind and `any(kind)` / `record(kind, id)`
+                            # methods): judge the copy of the construction spliced into the actor, where all of that code is in view
+                            for nb in cv.locate_all(b.name, bb):
+                                for st2 in cv.stmts(nb):
+                                    if st2["rv"]["k"] == "agg" and path_ends(st2["rv"].get("adt") or "", "ActorInputMessage") and st2["rv"].get("variant") == "Ok":
+                                        ok2, why4 = _some_dependency_actual(r, cv, agg_field_op(st2, "actual"), cv)
+                                        if ok2:
+                                            ok = True
                         ctx.check(ok, ci, [site(b, bb), site(cv, cbb)], "an aggregate's `actual` is not 'some dependency reported an actual build/service of this kind': " + why3, props=["C11", "C20"])
                 continue
             idiom, why = classify_ok_site(r, b, bb, st)
@@ -723,7 +806,38 @@ def keepalive_guard(ctx):
         for bb, t in rel.calls():
             if re.search(r"HashSet::<.*>::insert$", callee_decl(t)) and msg_field_atoms("Ok", "target_id")(rel.prov.operand_atoms(t["args"][1], interproc=False)):
                 ins.append((bb, t))
-        ctx.need(ins, "insertion into the service-root set")
+        # the record may also be a plain flag (`has_root_service |= actual`): a named bool that starts false before the loop and is only ever or-ed with the
+        # message's `actual` (or set to true under a true `actual`) in the Ok{Service} handler
+        loops0 = rel.natural_loops()
+        blks0 = max(loops0, key=lambda l: len(l[1]))[1] if loops0 else set()
+        rec_flags = []
+        for l_, loc_ in enumerate(rel.locals):
+            if loc_["ty"] != "bool" or not loc_.get("name"):
+                continue
+            defs_ = rel.prov.defs.get(l_, ())
+            inside = [(k_, x_, b_) for (k_, x_, b_) in defs_ if b_ in blks0]
+            outside = [(k_, x_, b_) for (k_, x_, b_) in defs_ if b_ not in blks0]
+            if not inside or not outside or not all(k_ == "assign" and x_["rv"]["k"] == "use" and const_val(x_["rv"]["op"]) == "false" for (k_, x_, b_) in outside):
+                continue
+            good_ = True
+            for (k_, x_, b_) in inside:
+                rv_ = x_["rv"] if k_ == "assign" else None
+                if rv_ is None:
+                    good_ = False
+                elif rv_["k"] == "binop" and rv_["op"] == "BitOr":
+                    ats_ = rel.prov.operand_atoms(rv_["a"], interproc=False) | rel.prov.operand_atoms(rv_["b"], interproc=False)
+                    good_ = good_ and any(a[0] == "field" and a[2] == "actual" for a in ats_) and b_ in Rsvc
+                elif rv_["k"] == "use" and const_val(rv_["op"]) == "true":
+                    good_ = good_ and b_ in Rsvc and b_ in G
+                elif rv_["k"] == "use" and rv_["op"]["k"] in ("copy", "move"):
+                    good_ = good_ and any(a[0] == "field" and a[2] == "actual" for a in rel.prov.operand_atoms(rv_["op"], interproc=False)) and b_ in Rsvc
+                else:
+                    good_ = False
+            if good_:
+                rec_flags.append(l_)
+        ctx.need(ins or rec_flags, "insertion into the service-root set")
+        if rec_flags and not ins:
+            ctx.ok(f"{lab}/service-root-insert", [rel.loc()], "the record is a flag or-ed with the `actual` of Ok{Service} messages addressed to Root")
         set_names = set()
         for bb, t in ins:
             ctx.check(bb in Rsvc and bb in G, f"{lab}/service-root-insert", [site(rel, bb)], "a root is recorded as a running service without Ok{Service, actual: true}: zinoma would stay alive for a build-only request (or the reverse)", props=["C11", "C20"])
@@ -736,6 +850,9 @@ def keepalive_guard(ctx):
         def nonempty(d):
             return d[0] == "call" and d[1].endswith("::is_empty") and d[2] and {z[1] for z in d[2][0] if z[0] == "localname"} & set_names
         Gne = guard_region(rel, nonempty, False)
+        flag_edges = [e for e in rel.edges if e.label and e.label[0] == "bool" and e.label[1] is True and e.label[2] is not None and set(rec_flags) & set(_locals_read(rel, e.label[2]))]
+        for e in flag_edges:
+            Gne |= rel.dominated_by_edge(e)
         for w in waits:
             ctx.check(w.producer[0] in Gne, f"{lab}/final-wait-guard", [site(rel, w.into_bb)], "the final wait is not guarded by `!service_roots.is_empty()`: a build-only run would never exit", props=["C11", "C20"])
             # ... and by nothing that could be false after a successful run: besides the non-empty test only "no termination was received yet" (a flag
@@ -746,6 +863,10 @@ def keepalive_guard(ctx):
             for (e, descs, pol) in dominating_conditions(rel, w.producer[0]):
                 if any(nonempty(d) for d in descs) or any(d[0] == "not" and any(nonempty(x) for x in d[1]) for d in descs):
                     continue
+                if e in flag_edges:
+                    continue
+                if e.src in blks and any(d[0] == "call" and d[1].endswith("::is_empty") for d in descs) and pol is True:
+                    continue   # the loop's own exit condition (`while !(builds.is_empty() && services.is_empty())`): what "after a successful run" means
                 if not conditions_within([(e, descs, pol)], []):
                     continue   # logging-level test
                 flags = [x for x in _locals_read(rel, e.label[2]) if rel.locals[x].get("name") and rel.locals[x]["ty"] == "bool"]
@@ -764,6 +885,24 @@ def keepalive_guard(ctx):
                 for fl in flags:
                     defs = rel.prov.defs.get(fl, ())
                     if defs and any(kind == "assign" and x["rv"]["k"] == "use" and const_val(x["rv"]["op"]) == "true" and bb in treg for kind, x, bb in defs) and pol is False:
+                        blocked = True
+            # (a relay that *returns* when the termination arrives never reaches the final wait afterwards)
+            if not blocked and treg and not any(w.producer[0] in rel.reach_from(x) for x in treg):
+                blocked = True
+            if not blocked and treg:
+                # the arm hands the event over as a value of a local enum built nowhere else: what follows is what the match on that variant does
+                for (abb, ast) in rel.aggregates():
+                    rv = ast["rv"]
+                    if abb not in treg or "adt" not in rv or rv["adt"] not in ctx.f.adts or not ctx.f.adts[rv["adt"]]["enum"] or rv["adt"].startswith("std::"):
+                        continue
+                    nm_, var_ = rv["adt"].split("::")[-1], rv["variant"]
+                    if any(bb2 not in treg for (bb2, _) in rel.aggregates(nm_, var_)):
+                        continue
+                    sw = {e.src for e in rel.edges if e.label and e.label[0] == "variant" and path_ends(e.label[1] or "", nm_)}
+                    Rv = variant_region(rel, nm_, var_)
+                    direct = any(w.producer[0] in (rel.reach_from(x, avoid=tuple(sw)) | {x}) for x in treg)
+                    via = any(w.producer[0] in (rel.reach_from(x) | {x}) for x in Rv)
+                    if sw and not direct and not via:
                         blocked = True
             ctx.check(blocked or not treg, f"{lab}/final-wait-not-after-termination", [site(rel, w.into_bb)],
                       "the final wait is also entered when the termination signal was already received in the loop: zinoma then waits for a second signal and the first one is not honoured", props=["C10", "C11"])
